@@ -46,7 +46,10 @@ Uppers17 == {Null, Single("a", I("2")), Single("b", Single("c", I("3"))), Single
              Single("l", L(<<Req>>)), Single("b", Single("d", L(<<I("5"), Req>>))),
              Single("b", Single("d", L(<<I("5")>>))), Single("z", Req),
              (* an explicitly EMPTY list is a value too: it satisfies the marker in the list below it *)
-             Single("l", EmptyList), Single("b", Single("d", EmptyList)), Mk2("l", EmptyList, "n", EmptyList), Mk2("a", I("2"), "b", Mk2("c", I("3"), "d", L(<<I("5")>>)))}
+             Single("l", EmptyList), Single("b", Single("d", EmptyList)), Mk2("l", EmptyList, "n", EmptyList),
+             (* ... and so does a list that only EDITS entries of the list below *)
+             Single("b", Single("d", L(<<Single("$delete", I("7"))>>))), Single("l", L(<<Mk2("$match", Single("e", I("1")), "z", I("1"))>>)),
+             Single("b", Single("d", L(<<Mk2("$match", I("7"), "$value", I("8"))>>))), Mk2("a", I("2"), "b", Mk2("c", I("3"), "d", L(<<I("5")>>)))}
 CasesC17(lazy) ==
   {[layers |-> IF IsNull(u) THEN <<Tree17(p)>> ELSE <<Tree17(p), u>>] : p \in [1..8 -> BOOLEAN], u \in Uppers17}
 
@@ -86,7 +89,14 @@ DeepTargets15 ==
       : kv \in {L(<<I("1"), I("2")>>), I("5"), Single("m", I("1"))},
         av \in {Single("q", I("1")), I("0"), L(<<I("1")>>)},
         zv \in {L(<<S("a")>>), S("done"), Single("m", I("2"))} }
+(* edits fourteen levels down: depth is not a parameter of the contract *)
+RECURSIVE Nest15(_, _)
+Nest15(n, leaf) == IF n = 0 THEN leaf ELSE Single("d" \o NatStr(n), Nest15(n - 1, leaf))
+DeepLeaves15 == { <<Mk2("a", I("1"), "b", I("2")), Single("a", I("1"))>>, <<Single("a", I("1")), Mk2("a", I("1"), "b", I("2"))>>,
+                  <<Single("l", L(<<E1, E2>>)), Single("l", L(<<E1>>))>>, <<Single("l", L(<<E1>>)), Single("l", L(<<E2, E1>>))>>,
+                  <<Mk2("a", I("1"), "b", I("2")), Mk2("a", I("3"), "c", I("2"))>> }
 CasesC15(lazy) == {[base |-> Base15, target |-> t] : t \in Targets15}
+            \cup {[base |-> Nest15(14, lf[1]), target |-> Nest15(14, lf[2])] : lf \in DeepLeaves15}
             \cup {[base |-> Deep15, target |-> t] : t \in DeepTargets15}
             \cup {[base |-> t, target |-> Deep15] : t \in DeepTargets15}
             \cup {[base |-> t, target |-> Base15] : t \in Edits(Base15) \cup KindEdits(Base15)}
